@@ -136,6 +136,23 @@ def gen_generic(rng, d, nslots=3, nev=14, ops=None, cats=CATS, init=2):
             if t not in live:
                 live.append(t)
             mutable.discard(t)
+        elif op == "Histogram":
+            if d["k"] not in ("Bin", "SparselyBin"):
+                continue
+            a, t = rng.choice(live), rng.choice(slots)
+            out.append({"op": "Histogram", "t": t, "a": a})
+            out.append({"op": "Drop", "s": t})      # its descriptor differs from the pool's: not used further
+            if t in live:
+                live.remove(t)
+            mutable.discard(t)
+        elif op in ("StackBuild", "FractionBuild"):
+            # these keep (some of) their arguments inside the result by design: build, observe, drop
+            t = nslots + 1
+            if op == "StackBuild":
+                out.append({"op": "StackBuild", "t": t, "srcs": [rng.choice(live) for _ in range(rng.choice([1, 2, 3]))]})
+            else:
+                out.append({"op": "FractionBuild", "t": t, "a": rng.choice(live), "b": rng.choice(live)})
+            out.append({"op": "Drop", "s": t})
         elif op == "Read":
             out.append({"op": "Read", "a": rng.choice(live), "which": rng.choice(["toJson", "repr", "hash", "children", "ndim"])})
         elif op == "Eq":
